@@ -6,6 +6,7 @@ import Theorems.Typed
 import Theorems.Lazy
 import Theorems.IoRead
 import Theorems.Chunks
+import Theorems.FrameBody
 
 namespace Amqp.Codec
 open Amqp.Gen.Codes
